@@ -209,6 +209,7 @@ func Driver() int {
 	merged := newShardReport(prop, info.Engine, -1, tier, seed)
 	nt := map[uint64]bool{}
 	states := map[uint64]bool{}
+	scheds := map[uint64]bool{}
 	exhaustive := true
 	any := false
 	for _, r := range reports {
@@ -225,6 +226,9 @@ func Driver() int {
 		}
 		for _, h := range r.States {
 			states[h] = true
+		}
+		for _, h := range r.Schedules {
+			scheds[h] = true
 		}
 		for k, v := range r.Faults {
 			merged.Faults[k] += v
@@ -322,6 +326,8 @@ func Driver() int {
 			"rule":                     info.Rule,
 			"samples":                  samples,
 			"distinct_final_states":    len(states),
+			"distinct_flush_schedules": len(scheds),
+			"distinct_schedules_note":  "distinct (completion order x outcome) sequences of flushes with >= 2 concurrent Stores, as released by the quiescence scheduler",
 			"runs_per_hour":            int(float64(merged.Evaluations) / hours),
 			"seeds":                    map[string]interface{}{"VERIF_SEED": seed, "derivation": "run seed = splitmix64(VERIF_SEED, property, shard, run index)", "shards": shards, "runs": merged.Evaluations},
 			"sim_steps_total":          merged.Steps,
